@@ -9,8 +9,10 @@ reference shift for odd and even lengths
 Property theorems only.  Part 1 is about `Model/Shift.lean` (`rollOne`, `fftshift1`, `ifftshift1`:
 the one-axis list functions the driver applies along every requested axis).  Part 2 is about
 `Model/Fft.lean` (`fft2`, `ifft2` = interpretation of the plan the translator regenerates from the
-source), over an abstract per-axis transform pair.  The concrete DFT statement is in
-`Props/C01Dft.lean`-free form at the end (see the comment there).
+source), over an abstract per-axis transform pair.  Two further modules are obligations of the same
+check: `Lemmas/TensorLiftC01.lean` (the n-D statements on the tensors and the `alongAxis` the driver
+runs) and `Lemmas/C01Dft.lean` (Mathlib's `ZMod.dft` as the transform: `fft2_eq_centered_dft`,
+`ifft2_fft2_id_dft`, `fft2_energy_dft`).
 -/
 namespace DirectVerif.C01
 open DirectVerif DirectVerif.Shift DirectVerif.Fft
